@@ -245,6 +245,13 @@ def skel_tryCallDelegated : List String := [
   ".return g.step(g.gen.nextThrow(ex)), false",
   "return"]
 
+def skel_generatorNextThrow : List String := [
+  "ex := g.vm.handleThrow(v)",
+  "if ex != nil",
+  ".return nil, resultNormal, ex",
+  "res, resType, ex := g.step()",
+  "return res, resType, ex"]
+
 def skel_asyncRunnerStep : List String := [
   "if done || ex != nil",
   ".if ex == nil",
@@ -429,6 +436,7 @@ theorem tie_skel_leave : @GojaModel.Generated.C14.skel_leave = @Expected.skel_le
 theorem tie_skel_restoreStacks : @GojaModel.Generated.C14.skel_restoreStacks = @Expected.skel_restoreStacks := by rfl
 theorem tie_skel_generatorObjectStep : @GojaModel.Generated.C14.skel_generatorObjectStep = @Expected.skel_generatorObjectStep := by rfl
 theorem tie_skel_tryCallDelegated : @GojaModel.Generated.C14.skel_tryCallDelegated = @Expected.skel_tryCallDelegated := by rfl
+theorem tie_skel_generatorNextThrow : @GojaModel.Generated.C14.skel_generatorNextThrow = @Expected.skel_generatorNextThrow := by rfl
 theorem tie_skel_asyncRunnerStep : @GojaModel.Generated.C14.skel_asyncRunnerStep = @Expected.skel_asyncRunnerStep := by rfl
 theorem tie_skel_ExceptionError : @GojaModel.Generated.C14.skel_ExceptionError = @Expected.skel_ExceptionError := by rfl
 theorem tie_skel_ExceptionString : @GojaModel.Generated.C14.skel_ExceptionString = @Expected.skel_ExceptionString := by rfl
@@ -670,5 +678,24 @@ theorem tie_asUncatchable_decision (x : Pv) :
   | val v => simp [asUncatchableException, GojaModel.Generated.C14.asUncatchableDecision]
   | sentinel k => simp [asUncatchableException, GojaModel.Generated.C14.asUncatchableDecision]
   | other n => simp [asUncatchableException, GojaModel.Generated.C14.asUncatchableDecision]
+
+/-- An uncatchable error raised while handleThrow closes iterators for a JS exception is unwound for by handleThrow
+itself (deferred recover, only when `ex != nil`; fix 404e270) and vm.try in _restoreStacks re-panics it: the model's
+`jiu` frame replaces the exception in flight by that error, and leaves an uncatchable / foreign panic alone. -/
+theorem tie_handleThrow_unwinds_for_abort :
+    GojaModel.Generated.C14.skel_handleThrow.contains "....ret = vm.handleThrow(x)" = true ∧
+    GojaModel.Generated.C14.skel_restoreStacks.contains "..ex1 := vm.try(func)" = true ∧
+    (applyFrame 1 .jiu true (.panic (.exc ⟨.obj 1, .thrower⟩) .thrower)) =
+      (.panic (.goErr (.stackOverflow 8)) .other, [⟨1, .iterReturn⟩]) ∧
+    (applyFrame 1 .jiu true (.panic (.other 42) .other)) = (.panic (.other 42) .other, []) := by decide
+
+/-- generator.nextThrow raises the VALUE through handleThrow (→ exceptionFromValue) inside the resumed generator: the
+model's `jgt` frame captures at the generator's yield unless the value is an Error object with an own stack. -/
+theorem tie_generator_throw_raises_value :
+    GojaModel.Generated.C14.skel_generatorNextThrow.contains "ex := g.vm.handleThrow(v)" = true ∧
+    (applyFrame 2 .jgt true (.panic (.exc ⟨.prim 1, .thrower⟩) .thrower)).1 =
+      .panic (.exc ⟨.prim 1, .genYield 2⟩) (.genYield 2) ∧
+    (applyFrame 2 .jgt true (.panic (.exc ⟨.goError 1 (.plain 1), .thrower⟩) .thrower)).1 =
+      .panic (.exc ⟨.goError 1 (.plain 1), .empty⟩) (.genYield 2) := by decide
 
 end GojaModel.C14.Tie
